@@ -174,9 +174,20 @@ def store(ref, val):
     if not ref.path:
         ref.cell.value = val
         return
+    # field-wise initialisation of a not-yet-initialised aggregate (`(_3.0: A) = ..; (_3.1: B) = ..`)
+    if ref.cell.value is None:
+        ref.cell.value = Tup([])
     v = ref.cell.value
     for k in ref.path[:-1]:
-        v = child(v, k)
+        nxt = None
+        try:
+            nxt = child(v, k)
+        except Unmodelled:
+            nxt = None
+        if nxt is None:
+            nxt = Tup([])
+            set_child(v, k, nxt)
+        v = nxt
     set_child(v, ref.path[-1], val)
 
 
